@@ -40,6 +40,7 @@ UNITS = {
     "C10": [
         {"name": "C10_PKT", "test": "TestC10_PKT", "quick": 3000, "thorough": 100000, "shards": 8},
         {"name": "C10_BIN", "test": "TestC10_BIN", "quick": 300, "thorough": 10000, "shards": 3, "bin": True},
+        {"name": "C10_TRAFFIC", "test": "TestC10_TRAFFIC", "quick": 80, "thorough": 2000, "shards": 4, "bin": True},
         {"name": "C10_HTTP", "test": "TestC10_HTTP", "quick": 90, "thorough": 4000, "shards": 3, "bin": True},
         {"name": "C10_NTLM", "test": "TestC10_NTLM", "quick": 20000, "thorough": 400000, "shards": 1},
         {"name": "C10_KDC", "test": "TestC10_KDC", "quick": 3000, "thorough": 60000, "shards": 1},
